@@ -14,7 +14,7 @@ PLAN = dict(
                            "UTF-8 validity of text strings is outside RFC 8949 well-formedness and is not judged"],
     runs=[
         dict(name="short", run="^TestExhaustiveShort$", shards=(1, 16), timeout=(300, 900)),
-        dict(name="enum", run="^(TestExhaustiveBoundary|TestExhaustiveInitialByte|TestExhaustiveBigArgs|TestCorpus)$"),
+        dict(name="enum", run="^(TestExhaustiveBoundary|TestExhaustiveInitialByte|TestExhaustiveBigArgs|TestShapeSweep|TestCorpus)$"),
         dict(name="gen", run="^TestPropGenerated$", checks=(100000, 250000), shards=(1, 8)),
         dict(name="enc", run="^TestPropEncoderOutput$", checks=(30000, 100000), shards=(1, 4)),
     ],
